@@ -13,6 +13,7 @@ CONSTANTS
   MaxProgress = FALSE
   FixDrain = TRUE
   FixDrop = TRUE
+  AllowDown = TRUE
   MaxNextId = 1000000
   Exact = TRUE
 CONSTRAINT TraceConstraint
